@@ -19,6 +19,7 @@ func vxBuiltState(k int) (*Message, bool) {
 	}
 	vxUnwind(vxLoopBound, false) // from here on loops are checked, not cut
 	vxAssume(len(raw) == messageHeaderSize+int(m.Length))
+	vxAssume(raw[0]>>6 == 0) // built messages carry zero in the two leading type bits
 	vxAssume(int(m.Length)%4 == 0)
 	return m, true
 }
@@ -70,9 +71,7 @@ func vh_C09_text() {
 	}
 	which := vxChoose(5)
 	limit := [5]int{513, 763, 763, 763, 763}[which]
-	n := vxInt()
-	vxAssume(0 <= n)
-	vxAssume(n <= limit+300)
+	n := vxLen(limit + 300)
 	val := vxBytes(n, n)
 	snap := vxSnapshot(m)
 	var err error
@@ -154,9 +153,7 @@ func vh_C09_errorcode() {
 	if !ok {
 		return
 	}
-	code := vxInt()
-	vxAssume(0 <= code)
-	vxAssume(code <= 999)
+	code := vxLen(999)
 	snap := vxSnapshot(m)
 	err := ErrorCode(code).AddTo(m)
 	if refHasDefaultReason(code) {
@@ -204,9 +201,7 @@ func (s vxFlagSetter) AddTo(m *Message) error {
 // Build stops at and returns the first failing setter's error.
 func vh_C09_build() {
 	var ran1, ran3 int
-	n := vxInt()
-	vxAssume(0 <= n)
-	vxAssume(n <= 763+300)
+	n := vxLen(763 + 300)
 	val := vxBytes(n, n)
 	m := new(Message)
 	if vxChoose(2) == 1 {
@@ -248,9 +243,7 @@ func vh_C09_selftest() {
 	if !ok {
 		return
 	}
-	n := vxInt()
-	vxAssume(0 <= n)
-	vxAssume(n <= 800)
+	n := vxLen(800)
 	err := Realm(vxBytes(n, n)).AddTo(m)
 	vxAssert(err == nil, "selftest: deliberately false")
 }
